@@ -139,6 +139,33 @@ def check_component(name, comp, allowed):
     return None
 
 
+def decode_once(b):
+    """percent-decoding, one level: what the component stands for"""
+    out = bytearray()
+    i = 0
+    while i < len(b):
+        if b[i:i + 1] == b"%" and len(b) >= i + 3 and all(c in b"0123456789abcdefABCDEF" for c in b[i + 1:i + 3]):
+            out.append(int(b[i + 1:i + 3], 16)); i += 3
+        else:
+            out.append(b[i]); i += 1
+    return bytes(out)
+
+
+def input_components(url):
+    """(path or None, query or None, fragment or None) of an http(s) URL as written, by the generic split: the fragment follows the first '#',
+    the query the first '?' before it, the path runs from the end of the authority (first '/', '?', '#' or backslash after '//')"""
+    frag = url.split("#", 1)[1] if "#" in url else None
+    rest = url.split("#", 1)[0]
+    query = rest.split("?", 1)[1] if "?" in rest else None
+    rest = rest.split("?", 1)[0]
+    import re
+    m = re.match(r"^[hH][tT][tT][pP][sS]?://[^/\\]*(/.*)?$", rest, re.S)
+    path = m.group(1) if m else None
+    if path is not None and ("\\" in path or any(seg in (".", "..") for seg in path.split("/"))):
+        path = None          # backslashes and dot segments: the path is rewritten before it is encoded
+    return path, query, frag
+
+
 def oracle(case, obs):
     dt, other = _STASH.pop(id(case), (0, None))
     url = case["url"]
@@ -204,6 +231,17 @@ def oracle(case, obs):
                 m = check_component(name, comp, allowed)
                 if m:
                     return m
+        # no double-encoding of valid escapes: decoded once, a component stands for what the caller wrote
+        ipath, iquery, ifrag = input_components(url)
+        for name, given, got in (("path", ipath, path), ("query", iquery, query), ("fragment", ifrag, frag)):
+            if given is None or got is None:
+                continue
+            try:
+                want = decode_once(given.encode("utf-8", "surrogatepass"))
+            except UnicodeEncodeError:
+                continue
+            if decode_once(got.encode("ascii", "replace")) != want:
+                return "%s %r was written %r: decoded once it is not what the caller wrote (a valid escape was encoded again)" % (name, given[:60], got[:80])
         # re-parsing the string form gives the same Url
         from urllib3.util.url import parse_url
         try:
@@ -220,6 +258,21 @@ def signature(case, obs, msg):
     sig = {"msg": m[:40]}
     if "is not a decimal number but parsing succeeded" in m:
         sig["kind"] = "port-trailing-newline" if case["url"].endswith("\n") or "\n" in case["url"] else "port-text"
+    if m.startswith("authority is invalid for RFC 3986 but parsing succeeded"):
+        # the same '$': a bracketed literal followed by one final newline
+        import re
+        u = case["url"]
+        a = re.match(r"[^/?#\\]*", u[u.index("//") + 2:] if "//" in u else u, re.S).group(0)
+        if a.endswith("]\n") and "\n" not in a[:-1]:
+            sig["kind"] = "port-trailing-newline"
+    if "a valid escape was encoded again" in m:
+        import re
+        comp = re.search(r"^(path|query|fragment) ", m).group(1)
+        ipath, iquery, ifrag = input_components(case["url"])
+        given = {"path": ipath, "query": iquery, "fragment": ifrag}[comp] or ""
+        valid = len(re.findall(r"%[0-9a-fA-F]{2}", given))
+        if valid and given.count("%") > valid:
+            sig = {"kind": "valid-escape-reencoded-beside-stray-percent"}
     return sig
 
 
@@ -286,6 +339,15 @@ def cases(rng, tier):
     for _ in range(500 if tier == "quick" else 5000):
         n = rng.randint(1, 12)
         out.append({"url": rng.choice(PREFIXES) + "".join(chr(rng.choice([rng.randrange(32, 127), rng.randrange(0x80, 0x2000), rng.randrange(0x10000, 0x10ffff)])) for _ in range(n))})
+    # one final newline after each authority form; valid escapes beside a '%' that begins none, in every component
+    for pre in ("http://", "https://", "//", "HTTP://u@"):
+        for a in ("[::1]", "[::1]:80", "[fe80::1%25eth0]", "h:80", "h:", "h", "1.2.3.4", "1.2.3.4:8", "[::1]:"):
+            for nl in ("\n", "\n\n", "\r\n", "\r"):
+                for tail in ("", "/x", "?q", "#f"):
+                    out.append({"url": pre + a + nl + tail})
+    for comp in ("a%41%zz", "%41%", "%", "%4", "%zz%41", "%25%41%", "%41%42", "a%2f%2F%", "%e9%", "\u00e9%41%", "%41%\u00e9"):
+        for u in ("http://h/" + comp, "http://h/p?" + comp, "http://h/p#" + comp, "http://h/" + comp + "?" + comp + "#" + comp, "https://u@h:8/x/" + comp + "/y"):
+            out.append({"url": u})
     # running-time clause: pathological repetitions
     for n in ([2000, 20000] if tier == "quick" else [2000, 20000, 100000]):
         for unit, tail in [("a", ""), ("/", ""), ("@", ""), (":", ""), ("%", ""), ("a.", ""), ("/../", ""), ("%41", "%"), ("[", ""), ("1", ":"), ("\\", ""), ("?", "#"), ("a", "!"), (".", "@")]:
